@@ -259,6 +259,28 @@ func c03Paths(c *Ctx, m *searchModel) {
 				}
 			}
 			_ = cutoffSeen
+			// drawn node: zero, decided before any table probe, leaf evaluation or move is tried
+			working := false
+			for _, e := range sp.events {
+				if e.Kind == evChild || e.Kind == evRead || e.Kind == evWrite || e.Kind == evPush || (e.Kind == evCall && tagOf(e) == "Evaluate") {
+					working = true
+				}
+			}
+			drawFact, drawKnown := false, false
+			for _, f := range st.Facts {
+				if s := vstrOf(f.Cond); strings.HasPrefix(s, "==(.Outcome(Result(") {
+					drawFact, drawKnown = f.Truth, true
+				}
+			}
+			if working && !(drawKnown && !drawFact) {
+				badT = "evaluates the node (table probe / leaf / moves) without first establishing that the game is not already drawn [" + st.FactsString() + "]"
+			}
+			if drawKnown && drawFact {
+				rs := vstrOf(sp.o.Ret)
+				if !(strings.Contains(rs, "Type:1") && strings.Contains(rs, "Pawns:0")) || working {
+					badT = "a drawn node must return zero at once, returns " + rs
+				}
+			}
 			// child scores appear only negated+incremented
 			facts := st.FactsString() + " ;ret " + vstrOf(sp.o.Ret)
 			for _, tag := range childTags {
